@@ -2,6 +2,7 @@ import Tw.Model.Huffman
 import Tw.Model.HuffmanFreq
 import Tw.Model.HuffmanRef
 import Tw.Model.HuffmanStream
+import Tw.Model.HuffmanRefTree
 import Tw.Gen.Huffman
 import Tw.Drv.Util
 
@@ -19,6 +20,9 @@ hd <prefix> <n> <capmax>     -> h <fnv>     … × capacities 0..capmax, Rust de
 hrd <prefix> <n> <capmax>    -> h <fnv>     … × capacities 0..capmax, C++ Decompress
 repr                         -> h <fnv>     the 257 code strings of the built-in table
 tiefreq                      -> ok | differ from_frequencies(data/frequencies) is the built-in table
+rfq <f0,…,f255> <hex>        -> skip | deep | <hex>   C++ ConstructTree + Compress (model of both);
+                                `skip` when the C++ `int` arithmetic would overflow (Σ|f as i32| + 1 ≥ 2^31),
+                                `deep` when a code is longer than 31 bits (`1 << Depth` undefined)
 fq <f0,…,f255> <cap> <hex>   -> panic | ok <fnv of code strings> <compress hex> <compress_bug hex>
                                 <len> <lenbug> <decompress of hex at cap: ok:<hex> | capacity>
 ```
@@ -40,14 +44,18 @@ def refStr : RefDec → String
 
 def le16 (n : Nat) : List UInt8 := [UInt8.ofNat n, UInt8.ofNat (n / 256)]
 
-/-- the compressor always goes through the streaming model (the form of the Rust code); the spec form
-`compress` is what the theorems are about, their equality is checked here on every request and proved
-in `Tw.Proofs.HuffmanStream` -/
+/-- The spec form `compress` is what the theorems are about; the streaming model (the form of the
+Rust code) is proved equal to it for well-formed tables (`Tw.Props.C07.streaming_compressor_eq_spec`).
+For inputs up to 512 bytes both are computed on every request and compared here as well (a cross-check
+of the executable definitions); for longer inputs only the linear-time spec form is evaluated — the
+streaming model measures `out.length` at every byte and is quadratic. -/
 def compressChecked (t : Table) (bug : Bool) (xs : List UInt8) : Option (List UInt8) :=
   let a := compress t bug xs
-  match compressStream t bug xs with
-  | some b => if a = b then some a else none
-  | none => none
+  if xs.length > 512 then some a
+  else
+    match compressStream t bug xs with
+    | some b => if a = b then some a else none
+    | none => none
 
 def hashCompress (t : Table) (h : UInt64) (xs : List UInt8) : UInt64 :=
   match compressChecked t false xs, compressChecked t true xs with
@@ -162,6 +170,17 @@ def handle (toks : List String) : String :=
     match fromFrequencies Tw.Gen.Huffman.frequencies with
     | .ok t => if t = tbl then "ok" else "differ"
     | _ => "differ"
+  | ["rfq", fs, h] =>
+    match parseFreqs fs, parseHex h with
+    | some fs, some xs =>
+      if fs.length ≠ 256 then "bad-op"
+      else
+        let mag := (fs.map fun x => (toI32 x).natAbs).sum + 1
+        if mag ≥ 2147483648 then "skip"
+        else
+          let r := refConstruct fs
+          if r.maxLen ≥ 32 then "deep" else toHex (refTreeCompress r xs)
+    | _, _ => "bad-op"
   | ["fq", fs, cap, h] =>
     match parseFreqs fs, parseNat cap, parseHex h with
     | some fs, some cap, some xs =>
